@@ -33,7 +33,10 @@ def gen_prog(rng):
     for i in range(n_roots):
         units.append({"kind": "root", "name": f"r{i}", "m0": float(rng.integers(-50, 51)),
                       "s0": float(rng.choice([10.0, 100.0, 1000.0])), "per_obs": bool(rng.random() < 0.7),
-                      "shape": shape if rng.random() < 0.7 else []})
+                      "shape": shape if rng.random() < 0.7 else [],
+                      # the location comes from a hyper-parameter (a strong variable without distribution) through a
+                      # cached calculation; it is re-assigned right before simulate()
+                      "hyper": bool(rng.random() < 0.4)})
     n_more = int(rng.integers(1, 8))
     for _ in range(n_more):
         ui = len(units)
@@ -83,7 +86,11 @@ def build(desc):
     objs = []
     for ui, u in enumerate(units):
         if u["kind"] == "root":
-            d = lsl.Dist(tfd.Normal, loc=u["m0"], scale=u["s0"])
+            if u.get("hyper"):
+                hv = lsl.Var(jnp.asarray(u["m0"], jnp.float32), name="h_" + u["name"])
+                d = lsl.Dist(tfd.Normal, loc=lsl.Calc(lambda h: h * 1.0, hv, _name="hloc_" + u["name"]), scale=u["s0"])
+            else:
+                d = lsl.Dist(tfd.Normal, loc=u["m0"], scale=u["s0"])
             d.per_obs = u.get("per_obs", True)
             v = lsl.Var(jnp.zeros(tuple(u["shape"]), jnp.float32), d, name=u["name"])
             objs.append(v)
@@ -196,16 +203,27 @@ def run_case(case):
         base = {}
         for ui in drawn:
             sh = np.shape(objs[ui].value)
-            base[ui] = np.asarray(rng.integers(-3, 4, size=sh), np.float32)
+            # whole-number placeholders; in a third of the cases some of them are integer arrays (np.zeros(n, int) style)
+            as_int = case["idx"] % 3 == 0 and rng.random() < 0.5
+            base[ui] = np.asarray(rng.integers(-3, 4, size=sh), np.int32 if as_int else np.float32)
+            if as_int:
+                res.ev("integer_placeholder")
             objs[ui].value = jax.numpy.asarray(base[ui])
         model.update()
         model.auto_update = auto
         n_rounds = 2
+        m0_now = {ui: units[ui]["m0"] for ui in drawn if units[ui]["kind"] == "root"}
         shared: dict = {}
         prev = dict(base)
         for rd in range(n_rounds):
             seed_int = int(rng.integers(0, 2 ** 31 - 1))
             before_state = {k: (None if v.value is None else np.asarray(v.value).copy()) for k, v in model.state.items()}
+            # hyper-parameters change right before the simulation (with auto-update off: no update() in between)
+            for ui in drawn:
+                if units[ui].get("hyper"):
+                    m0_now[ui] = float(rng.integers(-50, 51)) + (2000.0 if rd == 0 else -2000.0)
+                    model.vars["h_" + units[ui]["name"]].value = jax.numpy.asarray(m0_now[ui], jax.numpy.float32)
+                    res.ev("hyperparameter_changed_before_simulate" + ("" if auto else "_no_update"))
             model.simulate(jax.random.PRNGKey(seed_int), skip=skip_names)
             new = drawn_values(desc, objs)
             for ui in drawn:
@@ -221,11 +239,15 @@ def run_case(case):
                                       f"{skip_names[skip_units.index(ui)]}) changed", w)
                     continue
                 if u["kind"] == "root":
-                    z = (new[ui].astype(np.float64) - u["m0"]) / u["s0"]
+                    z = (new[ui].astype(np.float64) - m0_now[ui]) / u["s0"]
                     res.mon("root_draw_standardised", z.size)
                     if np.any(np.abs(z) > 7) or (z.size and np.array_equal(new[ui], prev[ui])):
-                        res.violation("root-draw", f"root {u['name']}: standardised draw {z.ravel()[:4].tolist()} "
-                                      "(not a fresh N(m0,s0) draw)", w)
+                        zs = (new[ui].astype(np.float64) - u["m0"]) / u["s0"]
+                        mech = "stale-ancestor-values" if u.get("hyper") and not np.any(np.abs(zs) > 7) else "root-draw"
+                        res.violation(mech, f"root {u['name']}: standardised draw {z.ravel()[:4].tolist()} "
+                                      f"(not a fresh N(m0,s0) draw; m0 = {m0_now[ui]}" +
+                                      (", set through its hyper-parameter right before simulate(); the build-time value was "
+                                       f"{u['m0']}; auto_update={auto})" if u.get("hyper") else ")"), w)
                     res.extra = (res.extra or []) + [float(x) for x in z.ravel()[:8]]
                 else:
                     loc = u["a"] + u["b"] * spec_eval(units, new, u["parent"])
@@ -248,7 +270,7 @@ def run_case(case):
                 if ui in skip_units:
                     continue
                 if u["kind"] == "root":
-                    noise[ui] = (new[ui].astype(np.float64) - u["m0"]) / u["s0"]
+                    noise[ui] = (new[ui].astype(np.float64) - m0_now[ui]) / u["s0"]
                 elif u["scale"] > 1:
                     loc = u["a"] + u["b"] * spec_eval(units, new, u["parent"])
                     noise[ui] = (new[ui].astype(np.float64) - loc) / u["scale"]
@@ -283,7 +305,7 @@ def run_case(case):
                 elif u["kind"] in ("root", "child"):
                     o = objs[ui]
                     if u["kind"] == "root":
-                        exp = tfd.Normal(u["m0"], u["s0"]).log_prob(o.value)
+                        exp = tfd.Normal(m0_now[ui], u["s0"]).log_prob(o.value)
                     else:
                         pv = objs[u["parent"]].value
                         exp = tfd.Normal(u["a"] + u["b"] * pv, u["scale"]).log_prob(o.value)
@@ -301,6 +323,18 @@ def run_case(case):
         mC, oC = run_sim(desc, not auto, s, skip_names, pre)
         mD, oD = run_sim(desc, auto, s + 1, skip_names, pre)
         vA, vB, vC, vD = (drawn_values(desc, o) for o in (oA, oB, oC, oD))
+        # the draw depends on the shape of the current value only: the same whole-number placeholders as int32 arrays
+        pre_i = {ui: jax.numpy.asarray(np.asarray(base[ui], np.int32 if np.asarray(base[ui]).dtype.kind == "f" else np.float32))
+                 for ui in drawn}
+        mE, oE = run_sim(desc, auto, s, skip_names, pre_i)
+        vE = drawn_values(desc, oE)
+        res.mon("placeholder_dtype_independent")
+        for k in vA:
+            if vA[k].shape != vE[k].shape or not np.allclose(vA[k].astype(np.float64), vE[k].astype(np.float64), rtol=1e-5, atol=2e-3):
+                res.violation("depends-on-placeholder-dtype", f"{units[k]['name']}: simulate(seed) gives {vA[k].ravel()[:3].tolist()} "
+                              f"when the current value is a {np.asarray(base[k]).dtype} array but {vE[k].ravel()[:3].tolist()} when it "
+                              f"holds the same numbers as {np.asarray(pre_i[k]).dtype}", w)
+                break
         res.mon("seed_determines_result")
         if any(vA[k].tobytes() != vB[k].tobytes() for k in vA):
             res.violation("not-deterministic", "two simulations with the same seed differ", w)
